@@ -780,6 +780,12 @@ POSITIONS = {
     "section_nested": HEAD + "c18section: {x: [ {y: NODE} ]}\n",
     "aliased": HEAD + "c18section: {x: &anc NODE, y: *anc}\n",
     "logging_section": HEAD + "logging: {version: 1, x: NODE}\n",
+    # a value that a later entry of the same mapping overrides (duplicate key, merged default): still a node of the document
+    "shadowed_section": HEAD + "c18section: {a: NODE, a: 1}\n",
+    "shadowed_lazy": "pipeline:\n  - !C18Lazy {a: NODE, a: 1}\n",
+    "shadowed_eager": "pipeline:\n  - !C18Eager {a: NODE, a: 1}\n",
+    "merged_default": HEAD + "c18section: {<<: {a: NODE}, a: 1}\n",
+    "merged_default_lazy": "pipeline:\n  - !C18Lazy {<<: {a: NODE}, a: 1}\n",
 }
 # positions in which the factory must see the control token
 CTL_IN_ARGS = {"top_value", "lazy_arg", "lazy_deep", "lazy_seq", "lazy_map_key", "eager_arg", "eager_deep",
